@@ -194,7 +194,7 @@ def run(ctx):
     ctx.audit(THEOREMS, LEAN_FILES)
     quick = ctx.tier == "quick"
     suite_interp(ctx, 150 if quick else 1500)
-    suite_emit(ctx, 66 if quick else 400)
+    suite_emit(ctx, 66 if quick else 250)
     s1, s2 = ctx.coverage["suites"]["interp"], ctx.coverage["suites"]["emit"]
     ctx.coverage["evaluations"] = (s1["inputs"] + s2["inputs"]) * s2["process_instances"]
     ctx.coverage["distinct_nontrivial"] = s2["emitted"]
